@@ -395,95 +395,306 @@ theorem closeConn_comm (up : Bool) (a b : Option Err) (st : Stats) :
               cases up <;> simp <;> (repeat' split) <;> simp_all
 
 
-/-! ### `halfPipe` / `Proxy` wrappers -/
+/-! ### the statement list and its defer stack -/
 
-/-- a failing `SetDeadline` ends the direction (the deadline failure is the last call) and is logged once -/
-theorem halfPipe_logs_le (up : Bool) (st : Stats) (s : Script) :
-    (halfPipe up st s).logs ≤ 1 := by
-  unfold halfPipe; simp only; split <;> omega
+def Stmt.isDefer : Stmt → Bool
+  | .deferActs _ => true
+  | _ => false
+
+/-- a statement that can neither leave the function nor make a call on the connections -/
+def Stmt.isSetup : Stmt → Bool
+  | .deferActs _ | .other => true
+  | _ => false
+
+/-- **every `defer` stands above the first statement that can leave the function** -/
+def defersFirst (p : List Stmt) : Bool := (p.dropWhile Stmt.isSetup).all (fun s => !s.isDefer)
+
+/-- the deferred bodies of a statement list, in source order -/
+def allDefers : List Stmt → List (List Act)
+  | [] => []
+  | .deferActs a :: p => a :: allDefers p
+  | _ :: p => allDefers p
+
+/-- what a complete tear-down runs: the deferred bodies last-in-first-out -/
+def fullTeardown (p : List Stmt) : List Act := unwind (allDefers p).reverse
+
+/-- the statements that matter (everything but `.other`) -/
+def skeleton (p : List Stmt) : List Stmt := p.filter (fun s => s != .other)
+def skeletonP (p : List PStmt) : List PStmt := p.filter (fun s => s != .other)
+
+@[simp] theorem Run.prepend_ran (evs : List Ev) (x : Run) : (x.prepend evs).ran = x.ran := rfl
+@[simp] theorem Run.prepend_exit (evs : List Ev) (x : Run) : (x.prepend evs).exit = x.exit := rfl
+@[simp] theorem Run.prepend_logs (evs : List Ev) (x : Run) : (x.prepend evs).logs = x.logs := rfl
+
+/-- statements that register nothing leave the stack as it is: whatever exit is taken unwinds all of it -/
+theorem exec_ran_of_noDefer (s : Script) (p : List Stmt) :
+    ∀ stack ds f, p.all (fun x => !x.isDefer) = true → (exec s p stack ds f).ran = unwind stack := by
+  induction p with
+  | nil => intro stack ds f _; rfl
+  | cons x p ih =>
+    intro stack ds f h
+    simp only [List.all_cons, Bool.and_eq_true] at h
+    cases x with
+    | deferActs a => simp [Stmt.isDefer] at h
+    | arm c => simp only [exec, Run.prepend_ran]; exact ih _ _ _ h.2
+    | retIfErr l =>
+      cases f with
+      | none => simp only [exec]; exact ih _ _ _ h.2
+      | some c => rfl
+    | loop =>
+      simp only [exec]
+      split
+      · rfl
+      · exact ih _ _ _ h.2
+    | other => simp only [exec]; exact ih _ _ _ h.2
+    | unknown => rfl
+
+theorem exec_ran_aux (s : Script) (p : List Stmt) :
+    ∀ stack ds f, defersFirst p = true →
+      (exec s p stack ds f).ran = unwind ((allDefers p).reverse ++ stack) := by
+  induction p with
+  | nil => intro stack ds f _; rfl
+  | cons x p ih =>
+    intro stack ds f h
+    have hnd : ∀ y, Stmt.isSetup y = false → (y :: p).all (fun x => !x.isDefer) = true →
+        allDefers (y :: p) = [] := by
+      intro y _ hall
+      have : ∀ q : List Stmt, q.all (fun x => !x.isDefer) = true → allDefers q = [] := by
+        intro q
+        induction q with
+        | nil => intro _; rfl
+        | cons z q ihq =>
+          intro hq
+          simp only [List.all_cons, Bool.and_eq_true] at hq
+          cases z <;> simp_all [allDefers, Stmt.isDefer]
+      exact this _ hall
+    cases x with
+    | deferActs a =>
+      have h' : defersFirst p = true := by simpa [defersFirst, List.dropWhile, Stmt.isSetup] using h
+      simp only [exec, allDefers, List.reverse_cons, List.append_assoc, List.singleton_append]
+      exact ih _ _ _ h'
+    | other =>
+      have h' : defersFirst p = true := by simpa [defersFirst, List.dropWhile, Stmt.isSetup] using h
+      simp only [exec, allDefers]
+      exact ih _ _ _ h'
+    | arm c =>
+      have hall : (Stmt.arm c :: p).all (fun x => !x.isDefer) = true := by
+        simpa [defersFirst, List.dropWhile, Stmt.isSetup] using h
+      rw [exec_ran_of_noDefer s _ _ _ _ hall, hnd _ rfl hall]; rfl
+    | retIfErr l =>
+      have hall : (Stmt.retIfErr l :: p).all (fun x => !x.isDefer) = true := by
+        simpa [defersFirst, List.dropWhile, Stmt.isSetup] using h
+      rw [exec_ran_of_noDefer s _ _ _ _ hall, hnd _ rfl hall]; rfl
+    | loop =>
+      have hall : (Stmt.loop :: p).all (fun x => !x.isDefer) = true := by
+        simpa [defersFirst, List.dropWhile, Stmt.isSetup] using h
+      rw [exec_ran_of_noDefer s _ _ _ _ hall, hnd _ rfl hall]; rfl
+    | unknown =>
+      have hall : (Stmt.unknown :: p).all (fun x => !x.isDefer) = true := by
+        simpa [defersFirst, List.dropWhile, Stmt.isSetup] using h
+      rw [exec_ran_of_noDefer s _ _ _ _ hall, hnd _ rfl hall]; rfl
+
+/-- **Every exit of a body whose `defer`s come first runs every deferred function**, last registered
+first — whatever the script makes the body do, through whichever `return` or `break` it leaves. -/
+theorem exec_ran (s : Script) (p : List Stmt) (h : defersFirst p = true) (ds : List DlRes) (f : Option Bool) :
+    (exec s p [] ds f).ran = fullTeardown p := by
+  rw [exec_ran_aux s p [] ds f h, List.append_nil]; rfl
+
+/-! ### the canonical body is `run` -/
+
+theorem exec_canonical (s : Script) :
+    (exec s canonical [] s.dls none).res = run s ∧
+    (exec s canonical [] s.dls none).logs = (if (run s).dlFail.isSome then 1 else 0) := by
+  unfold canonical run armBoth
+  simp only [exec]
+  cases h1 : (arm true s.dls).2.1
+  · simp [Run.prepend, Res.prepend, h1, arm]
+  · cases h2 : (arm false (arm true s.dls).2.2).2.1
+    · simp [Run.prepend, Res.prepend, h1, h2, arm]
+    · simp only [h1, h2, Bool.not_true, Bool.false_eq_true, if_false, if_true]
+      split
+      · rename_i c hc
+        simp [Run.prepend, Res.prepend, hc]
+      · rename_i hc
+        simp [Run.prepend, Res.prepend, hc, exec]
+
+theorem canonical_defersFirst : defersFirst canonical = true := by decide
+
+theorem canonical_fullTeardown :
+    fullTeardown canonical = [.spawnCloseSrc, .closeDst, .duration, .completed, .wgDone] := by decide
+
+/-! ### `halfPipe` wrappers -/
+
+@[simp] theorem halfPipe_trace (up : Bool) (st : Stats) (s : Script) : (halfPipe up st s).trace = (run s).trace := by
+  simp [halfPipe, halfPipeP, (exec_canonical s).1]
+@[simp] theorem halfPipe_delivered (up : Bool) (st : Stats) (s : Script) :
+    (halfPipe up st s).delivered = (run s).delivered := by
+  simp [halfPipe, halfPipeP, (exec_canonical s).1]
+@[simp] theorem halfPipe_counted (up : Bool) (st : Stats) (s : Script) :
+    (halfPipe up st s).counted = (run s).counted := by
+  simp [halfPipe, halfPipeP, (exec_canonical s).1]
+theorem halfPipe_logs (up : Bool) (st : Stats) (s : Script) :
+    (halfPipe up st s).logs = (if (run s).dlFail.isSome then 1 else 0) := by
+  simp [halfPipe, halfPipeP, (exec_canonical s).2]
+
+/-- the tear-down of `halfPipe` on every exit -/
+theorem halfPipe_teardown (up : Bool) (st : Stats) (s : Script) :
+    (halfPipe up st s).teardown = [.spawnCloseSrc, .closeDst, .duration, .completed, .wgDone] := by
+  show (exec s canonical [] s.dls none).ran = _
+  rw [exec_ran s canonical canonical_defersFirst, canonical_fullTeardown]
+
+theorem halfPipe_counts (up : Bool) (st : Stats) (s : Script) :
+    (halfPipe up st s).closedSrc = 1 ∧ (halfPipe up st s).closedDst = 1 ∧
+      (halfPipe up st s).done = 1 ∧ (halfPipe up st s).completed = 1 := by
+  have h : (exec s canonical [] s.dls none).ran = [.spawnCloseSrc, .closeDst, .duration, .completed, .wgDone] :=
+    halfPipe_teardown up st s
+  simp only [halfPipe, halfPipeP, h]
+  decide
+
+@[simp] theorem halfPipe_done (up : Bool) (st : Stats) (s : Script) : (halfPipe up st s).done = 1 :=
+  (halfPipe_counts up st s).2.2.1
+@[simp] theorem halfPipe_closedSrc (up : Bool) (st : Stats) (s : Script) : (halfPipe up st s).closedSrc = 1 :=
+  (halfPipe_counts up st s).1
+@[simp] theorem halfPipe_closedDst (up : Bool) (st : Stats) (s : Script) : (halfPipe up st s).closedDst = 1 :=
+  (halfPipe_counts up st s).2.1
+
+/-! ### deadline failures and the log -/
+
+def Ev.failedDl : Ev → Bool
+  | .dl _ ok _ => !ok
+  | _ => false
+
+theorem armBoth_failed (ds : List DlRes) :
+    ((armBoth ds).1.filter Ev.failedDl).length = (if (armBoth ds).2.1.isSome then 1 else 0) := by
+  rcases armBoth_cases ds with ⟨f, d', h⟩ | ⟨f1, f2, d', h⟩ | ⟨f1, f2, d', h⟩ <;> simp [h, Ev.failedDl]
+
+theorem loop_failedDl (rs : List ReadRes) : ∀ ws ds,
+    ((loop rs ws ds).trace.filter Ev.failedDl).length = (if (loop rs ws ds).dlFail.isSome then 1 else 0) := by
+  induction rs with
+  | nil => intro ws ds; simp [loop, Ev.failedDl]
+  | cons r rs ih =>
+    intro ws ds
+    have hk : ∀ (er : Option Err) (ws' : List WriteRes),
+        ((afterWrite er ds (fun ds' => loop rs ws' ds')).trace.filter Ev.failedDl).length =
+          (if (afterWrite er ds (fun ds' => loop rs ws' ds')).dlFail.isSome then 1 else 0) := by
+      intro er ws'
+      unfold afterWrite
+      cases er with
+      | some e => simp
+      | none =>
+        rcases armBoth_cases ds with ⟨f, d', h⟩ | ⟨f1, f2, d', h⟩ | ⟨f1, f2, d', h⟩ <;> simp [h, Ev.failedDl]
+        exact ih ws' d'
+    simp only [loop]
+    split
+    · split
+      · obtain ⟨o, n, hev⟩ := writeStep_ev r.bytes ws
+        simp [hev, Ev.failedDl]
+      · obtain ⟨o, n, hev⟩ := writeStep_ev r.bytes ws
+        rw [prepend_trace, prepend_dlFail, List.filter_append, List.length_append, hk]
+        simp [hev, Ev.failedDl]
+    · rw [prepend_trace, prepend_dlFail, List.filter_append, List.length_append, hk]
+      simp [Ev.failedDl]
+
+theorem run_failedDl (s : Script) :
+    ((run s).trace.filter Ev.failedDl).length = (if (run s).dlFail.isSome then 1 else 0) := by
+  unfold run
+  rcases armBoth_cases s.dls with ⟨f, d', h⟩ | ⟨f1, f2, d', h⟩ | ⟨f1, f2, d', h⟩ <;> simp [h, Ev.failedDl]
+  exact loop_failedDl _ _ _
 
 /-! ### `Proxy` -/
 
 /-- the dial error, if any, produces a non-empty statistic (true of every error `net.Dial` returns) -/
 def dialSane (i : ProxyIn) : Prop := ∀ e, i.dialErr = some e → ∃ t, e.stat = some t ∧ t ≠ ""
 
-theorem proxy_noPanic (i : ProxyIn) (h : dialSane i) : (proxy i).panicked = false := by
-  unfold proxy
+/-- the three ways through `Proxy` -/
+theorem proxy_cases (i : ProxyIn) :
+    (∃ e, i.dialErr = some e ∧ ((e.stat).getD "" = "") ∧ (proxy i).panicked = true ∧ (proxy i).returned = false) ∨
+    (∃ e t, i.dialErr = some e ∧ e.stat = some t ∧ t ≠ "" ∧
+      proxy i = ({ dialStat := t, covertNil := true, printed := 1 } : PState).finish true) ∨
+    (i.dialErr = none ∧ i.header = some false ∧ proxy i = ({ deferred := 1 } : PState).finish true) ∨
+    (i.dialErr = none ∧ i.header ≠ some false ∧
+      proxy i =
+        (let u := halfPipe true {} i.up
+         let d := halfPipe false u.stats i.down
+         ({ deferred := 1, wg := 0, adds := 1, removes := 1, printed := 1, clientCloses := 2, covertCloses := 2,
+            up := some u, down := some d, stats := d.stats } : PState).finish true)) := by
+  unfold proxy canonicalP
   cases hd : i.dialErr with
-  | none => simp only; split <;> rfl
   | some e =>
-    obtain ⟨t, ht, hne⟩ := h e hd
-    simp [ht, hne]
+    cases hs : e.stat with
+    | none => left; exact ⟨e, rfl, by simp [hs], by simp [execP, hd, hs, PState.finish], by simp [execP, hd, hs, PState.finish]⟩
+    | some t =>
+      by_cases ht : t = ""
+      · left; exact ⟨e, rfl, by simp [hs, ht], by simp [execP, hd, hs, ht, PState.finish], by simp [execP, hd, hs, ht, PState.finish]⟩
+      · right; left; exact ⟨e, t, rfl, hs, ht, by simp [execP, hd, hs, ht]⟩
+  | none =>
+    by_cases hh : i.header = some false
+    · right; right; left; exact ⟨rfl, hh, by simp [execP, hd, hh]⟩
+    · right; right; right
+      refine ⟨rfl, hh, ?_⟩
+      simp [execP, hd, hh]
+
+theorem proxy_noPanic (i : ProxyIn) (h : dialSane i) : (proxy i).panicked = false := by
+  rcases proxy_cases i with ⟨e, he, hs, _, _⟩ | ⟨e, t, _, _, _, hp⟩ | ⟨_, _, hp⟩ | ⟨_, _, hp⟩
+  · obtain ⟨t, ht, hne⟩ := h e he
+    simp [ht] at hs; exact absurd hs hne
+  all_goals rw [hp]; rfl
 
 /-- **`Proxy` returns**: for every pair of scripts both directions release the wait group, so
 `wg.Wait()` does not block. -/
 theorem proxy_returns' (i : ProxyIn) (h : dialSane i) : (proxy i).returned = true ∧ (proxy i).wgPending = 0 := by
-  unfold proxy
-  cases hd : i.dialErr with
-  | none =>
-    simp only
-    split
-    · exact ⟨rfl, rfl⟩
-    · simp [halfPipe]
-  | some e =>
-    obtain ⟨t, ht, hne⟩ := h e hd
-    simp [ht, hne]
+  rcases proxy_cases i with ⟨e, he, hs, _, _⟩ | ⟨e, t, _, _, _, hp⟩ | ⟨_, _, hp⟩ | ⟨_, _, hp⟩
+  · obtain ⟨t, ht, hne⟩ := h e he
+    simp [ht] at hs; exact absurd hs hne
+  all_goals rw [hp]; exact ⟨rfl, rfl⟩
 
 /-- **The session gauge is balanced** on every path (dial failure, PROXY-header failure, relay). -/
 theorem proxy_gauge (i : ProxyIn) : (proxy i).gaugeAdds = (proxy i).gaugeRemoves := by
-  unfold proxy
-  cases hd : i.dialErr with
-  | none =>
-    simp only
-    split
-    · rfl
-    · simp [halfPipe]
-  | some e =>
-    simp only
-    cases e.stat with
-    | none => rfl
-    | some t => simp only; split <;> rfl
+  rcases proxy_cases i with ⟨e, he, hs, _, _⟩ | ⟨e, t, _, _, _, hp⟩ | ⟨_, _, hp⟩ | ⟨_, _, hp⟩
+  · unfold proxy canonicalP
+    cases hst : e.stat with
+    | none => simp [execP, he, hst, PState.finish]
+    | some t => simp [hst] at hs; simp [execP, he, hst, hs, PState.finish]
+  all_goals rw [hp]; rfl
 
 /-- when the relay ran, both connections were closed (the client by both directions, the covert by
 both directions and once more by `Proxy` itself) -/
 theorem proxy_closes (i : ProxyIn) (h : (proxy i).started = true) :
-    2 ≤ (proxy i).clientCloses ∧ 2 ≤ (proxy i).covertCloses := by
-  unfold proxy at h ⊢
-  cases hd : i.dialErr with
-  | none =>
-    simp only [hd] at h ⊢
-    split
-    · rename_i hh; simp [hh] at h
-    · simp [halfPipe]
-  | some e =>
-    simp only [hd] at h
-    cases hs : e.stat with
-    | none => simp [hs, proxyPanic] at h
-    | some t =>
-      simp only [hs] at h
-      split at h <;> simp [proxyPanic] at h
+    (proxy i).clientCloses = 2 ∧ (proxy i).covertCloses = 3 := by
+  rcases proxy_cases i with ⟨e, he, hs, _, _⟩ | ⟨e, t, _, _, _, hp⟩ | ⟨_, _, hp⟩ | ⟨_, _, hp⟩
+  · exfalso
+    unfold proxy canonicalP at h
+    cases hst : e.stat with
+    | none => simp [execP, he, hst, PState.finish] at h
+    | some t => simp [hst] at hs; simp [execP, he, hst, hs, PState.finish] at h
+  · rw [hp] at h; simp [PState.finish] at h
+  · rw [hp] at h; simp [PState.finish] at h
+  · rw [hp]; exact ⟨rfl, rfl⟩
+
+/-- the covert connection is closed on every path on which it was opened -/
+theorem proxy_covert_closed (i : ProxyIn) (hd : i.dialErr = none) : 1 ≤ (proxy i).covertCloses := by
+  rcases proxy_cases i with ⟨e, he, _⟩ | ⟨e, t, he, _⟩ | ⟨_, _, hp⟩ | ⟨_, _, hp⟩
+  · rw [hd] at he; cases he
+  · rw [hd] at he; cases he
+  · rw [hp]; simp [PState.finish]
+  · rw [hp]; simp [PState.finish]
 
 /-- **The totals `Proxy` reports are the bytes delivered in each direction.** -/
 theorem proxy_counts (i : ProxyIn) (u d : Out)
     (hu : (proxy i).upOut = some u) (hdn : (proxy i).downOut = some d) :
     (proxy i).bytesUp = u.delivered.length ∧ (proxy i).bytesDown = d.delivered.length := by
-  unfold proxy at hu hdn ⊢
-  cases hd : i.dialErr with
-  | none =>
-    simp only [hd] at hu hdn ⊢
-    split
-    · rename_i hh; simp [hh] at hu
-    · rename_i hh
-      simp only [hh, if_false] at hu hdn
-      cases hu; cases hdn
-      exact ⟨run_counted i.up, run_counted i.down⟩
-  | some e =>
-    simp only [hd] at hu
-    cases hs : e.stat with
-    | none => simp [hs, proxyPanic] at hu
-    | some t =>
-      simp only [hs] at hu
-      split at hu <;> simp [proxyPanic] at hu
-
+  rcases proxy_cases i with ⟨e, he, hs, _, _⟩ | ⟨e, t, _, _, _, hp⟩ | ⟨_, _, hp⟩ | ⟨_, _, hp⟩
+  · exfalso
+    unfold proxy canonicalP at hu
+    cases hst : e.stat with
+    | none => simp [execP, he, hst, PState.finish] at hu
+    | some t => simp [hst] at hs; simp [execP, he, hst, hs, PState.finish] at hu
+  · rw [hp] at hu; simp [PState.finish] at hu
+  · rw [hp] at hu; simp [PState.finish] at hu
+  · rw [hp] at hu hdn ⊢
+    simp only [PState.finish, Option.some.injEq] at hu hdn
+    subst hu; subst hdn
+    simp only [PState.finish, Option.map_some, Option.getD_some, halfPipe_counted, halfPipe_delivered]
+    exact ⟨run_counted i.up, run_counted i.down⟩
 
 end CJ.HalfPipe
